@@ -19,4 +19,7 @@ VARIANTS = [
     # benign
     V('benign-massmatrix-inline', A, ("Ji = self.jacobianLink(i, theta)\n            jt = Ji.T @ self._box_spatial_links[i,:,:] @ Ji\n            M = M + jt", "Ji = self.jacobianLink(i, theta)\n            M = M + Ji.T @ self._box_spatial_links[i,:,:] @ Ji"), 'silent'),
     V('benign-id-rename', M, [("taulist = np.zeros(n)\n    for i in range(n):\n        Mi = np.dot(Mi,Mlist[i])", "taulist = np.zeros(n)\n    for i in range(n):\n        Mi = Mi @ Mlist[i]")], 'silent'),
+    V('gravity-through-home-frame', A, ("(fmr.Adjoint(Ti_im1) @ np.hstack((np.array([0,0,0]) , -1*grav))) +", "(self._link_homes_global[i].inv().adjoint() @ np.hstack((np.array([0,0,0]) , -1*grav))) +"), 'fire', 'R08.4'),
+    V('gravity-sign', A, ("(fmr.Adjoint(Ti_im1) @ np.hstack((np.array([0,0,0]) , -1*grav))) +", "(fmr.Adjoint(Ti_im1) @ np.hstack((np.array([0,0,0]) , grav))) +"), 'fire', 'base acceleration'),
+    V('benign-base-step-simplified', A, ("V[0:6, i] = (A[0:6, i] * theta_dot[i] + fmr.Adjoint(Ti_im1) @ np.zeros((6)))\n                vel_dot[0:6, i] = ((A[0:6, i] * theta_dot_dot[i]) +\n                    (fmr.Adjoint(Ti_im1) @ np.hstack((np.array([0,0,0]) , -1*grav))) +\n                    (fmr.ad(V[0:6, i]) @ A[0:6, i] * theta_dot[i]))", "V[0:6, i] = A[0:6, i] * theta_dot[i]\n                base_accel = fmr.Adjoint(Ti_im1) @ np.hstack((np.zeros(3), -grav))\n                vel_dot[0:6, i] = A[0:6, i] * theta_dot_dot[i] + base_accel"), 'silent'),
 ]
